@@ -307,7 +307,8 @@ def _shed_active_loads(
             },
         )
         print(p_res)
-    if p_res.fun > 0:
+    # Load can be shed at no cost (buses with zero interruption cost)
+    if p_res.fun > 0 or max(p_res.x[: len(buses)]) > alpha:
         shedded_active_bus_loads = p_res.x
     else:
         shedded_active_bus_loads = None
@@ -412,7 +413,8 @@ def _shed_reactive_loads(
             },
         )
         print(q_res)
-    if q_res.fun > 0:
+    # Load can be shed at no cost (buses with zero interruption cost)
+    if q_res.fun > 0 or max(q_res.x[: len(buses)]) > alpha:
         shedded_reactive_bus_loads = q_res.x
     else:
         shedded_reactive_bus_loads = None
